@@ -314,6 +314,8 @@ def run_measure(g, acc):
 
     # ---- n-site methods: all site pairs (with repetition), triples on small lattices
     methods = ['measure_nsite'] + (['measure_2x2', 'measure_line', 'measure_nsite_exact'] if envk == 'ctm' else [])
+    if 1 in g['dims']:   # no 2x2 window exists on a one-row / one-column lattice (KeyError from the lattice); strips start at width 2
+        methods = [m for m in methods if m not in ('measure_2x2', 'measure_nsite_exact')]
     N = len(sites)
     tuples = [(names, ss) for names in t2s[:2 if quick else 4] for ss in itertools.product(sites, repeat=2)]
     if N <= 4 or not quick:
